@@ -270,6 +270,10 @@ def shapes(tier):
                      decl.replace("\n", " "), exercises=["impl/src/fmt/display.rs::expand_struct", "impl/src/fmt/mod.rs::transparent_call_on_fields"],
                      quick=True, crate_attrs=CRATE_ATTRS))
     out += rename_all_shapes()
+    # 'without an attribute a variant prints ...' inside an enum whose other variants have attributes: Debug against std's builders (shape shared with C06)
+    from . import c06
+    c06.TIER[0] = tier
+    out += c06.variant_format_pairs("c02_debug")
     if tier == "quick":
         out = [s for s in out if s.quick]
     return out
